@@ -144,14 +144,14 @@ Section LeafFuel.
 
   (** closed forms of the nested bounds *)
   Theorem nested_copy_total g d k tr ids :
-    (forall k0 tr0, leaf_den t k0 tr0 -> unfold g t k0 = Some tr0) -> Den d t k tr ids ->
+    (forall k0 tr0, leaf_den t k0 tr0 -> unfold g t k0 = Some tr0) -> SDen d t k tr ids ->
     forall F c, (2 * d + 2 * g + 2 <= F)%nat -> remap_item_kind ord cf F t k c <> AOof.
   Proof.
     intros Hg HD F c HF H. apply (no_LeafOof g (2 * g + 2) Hg (le_n _)).
     apply (nested_copy_fuel_bound ord cf t (2 * g + 2) d k tr ids HD F c); [lia|exact H].
   Qed.
   Theorem nested_merge_total g d i oid e ids :
-    (forall k0 tr0, leaf_den t k0 tr0 -> unfold g t k0 = Some tr0) -> IDen d t i oid e ids ->
+    (forall k0 tr0, leaf_den t k0 tr0 -> unfold g t k0 = Some tr0) -> SIDen d t i oid e ids ->
     forall F y c, (2 * d + 2 * g + 4 <= F)%nat -> merge_interface ord cf F y t i c = AOof -> ChkOof cf t.
   Proof.
     intros Hg ID F y c HF H.
